@@ -12,10 +12,8 @@ import (
 	"math/rand"
 	"os"
 
-	"helm.sh/helm/v4/pkg/action"
 	chartutil "helm.sh/helm/v4/pkg/chart/v2/util"
 	helmcmd "helm.sh/helm/v4/pkg/cmd"
-	"helm.sh/helm/v4/pkg/storage"
 
 	"verif/harness/internal/eng"
 )
@@ -25,11 +23,9 @@ type c06Template struct {
 	Args     []string `json:"args,omitempty"` // extra command-line flags
 }
 
-func c06RunTemplate(r *eng.Runner, op *eng.Op, w *c06Wide, t *c06Template) (so eng.StepObs, out string) {
-	d := &c06Drv{inner: r.Inner}
-	cfg := &action.Configuration{KubeClient: &c06Kube{c06Client(r.Srv)}, Releases: storage.Init(d),
-		Capabilities: chartutil.DefaultCapabilities.Copy()}
-	req0, mreq0 := r.Srv.Requests(), r.Srv.MutatingRequests()
+func c06RunTemplate(r *eng.Runner, op *eng.Op, w *c06Wide, t *c06Template) (so eng.StepObs, out string, ro *c06RichObs) {
+	env := c06NewEnv(r, w)
+	cfg := env.cfg
 	var err error
 	func() {
 		defer func() {
@@ -65,11 +61,9 @@ func c06RunTemplate(r *eng.Runner, op *eng.Op, w *c06Wide, t *c06Template) (so e
 	if err != nil {
 		so.ErrText = err.Error()
 	}
-	so.Ledger = c06Ledger(r.Inner)
-	so.Objs = r.Srv.Snapshot()
-	so.MutReqs = r.Srv.MutatingRequests() - mreq0
-	so.Reqs = r.Srv.Requests() - req0
-	so.SWrites = d.writes
+	env.finish(&so)
+	ro = env.rich(err, so.Panic != "")
+	ro.Rendered, ro.RHooks = c06RenderWide(op, w)
 	return
 }
 
